@@ -335,3 +335,107 @@ Proof.
     pose proof (lex_loop_errb bs (N.of_nat (length bs)) max_tok (S (length bs)) (bs, 0) 0 [] []) as P.
     rewrite E in P. apply P. unfold inb. cbn [fst snd]. lia.
 Qed.
+
+(* ---------------------------------------------------------------------------------------------- *)
+(* bridge: the single-scan to_loc of Model/Lexer.v is toSQLPosition of Model/Loc.v (the C05 development) *)
+Definition loc_step_fn (p : N * N) (o : option N) : N * N :=
+  match o with
+  | None => p
+  | Some b => if b =? 10 then (fst p + 1, 1) else if b =? 9 then (fst p, snd p + 4) else (fst p, snd p + 1)
+  end.
+
+Lemma loc_scan_0 l ln cl : loc_scan l 0 ln cl = (ln, cl).
+Proof. destruct l; reflexivity. Qed.
+
+Lemma loc_scan_snoc : forall l n ln cl, loc_scan l (S n) ln cl = loc_step_fn (loc_scan l n ln cl) (nth_error l n).
+Proof.
+  induction l as [|b tl IH]; intros n ln cl.
+  - destruct n; reflexivity.
+  - destruct n as [|n].
+    + cbn [loc_scan nth_error loc_step_fn]. rewrite !loc_scan_0. cbn [fst snd].
+      destruct (b =? 10); [reflexivity |]. destruct (b =? 9); reflexivity.
+    + cbn [nth_error]. change (loc_scan (b :: tl) (S (S n)) ln cl) with
+        (if b =? 10 then loc_scan tl (S n) (ln + 1) 1 else if b =? 9 then loc_scan tl (S n) ln (cl + 4) else loc_scan tl (S n) ln (cl + 1)).
+      change (loc_scan (b :: tl) (S n) ln cl) with
+        (if b =? 10 then loc_scan tl n (ln + 1) 1 else if b =? 9 then loc_scan tl n ln (cl + 4) else loc_scan tl n ln (cl + 1)).
+      destruct (b =? 10); [apply IH |]. destruct (b =? 9); apply IH.
+Qed.
+
+Definition nloc (p : nat * nat) : N * N := (N.of_nat (fst p), N.of_nat (snd p)).
+
+Lemma loc_bridge_nat bs : forall n, loc_scan bs n 1 1 = nloc (Loc.to_loc bs n).
+Proof.
+  induction n as [|n IH].
+  - rewrite LocP.loc_origin. destruct bs; reflexivity.
+  - rewrite loc_scan_snoc, IH.
+    pose proof (LocP.loc_step bs n) as ST.
+    destruct (nth_error bs n) as [b|] eqn:NE.
+    + cbn [loc_step_fn]. destruct (b =? 10) eqn:E10.
+      * apply N.eqb_eq in E10. subst b.
+        assert (LS : Loc.is_line_start bs (S n) (S n)).
+        { split; [lia |]. split.
+          - right. replace (S n - 1)%nat with n by lia. exact NE.
+          - intros k Hk. lia. }
+        rewrite (LocP.to_loc_spec _ _ _ LS). rewrite LocP.slice_same.
+        unfold nloc. cbn [fst snd Loc.width fold_right].
+        rewrite LocP.loc_line. rewrite LocP.firstn_S_snoc, NE, LocP.count_lf_app.
+        change (Loc.count_lf [10]) with 1%nat. f_equal. lia.
+      * apply N.eqb_neq in E10.
+        rewrite (LocP.loc_step_exact bs n b NE E10). unfold nloc. cbn [fst snd]. unfold Loc.bwidth, Loc.is_tab, Loc.TAB.
+        destruct (b =? 9); f_equal; lia.
+    + cbn [loc_step_fn]. rewrite ST. reflexivity.
+Qed.
+
+Lemma loc_bridge bs i : to_loc bs i = nloc (Loc.to_loc bs (N.to_nat i)).
+Proof. unfold to_loc. apply loc_bridge_nat. Qed.
+
+(* ---------------------------------------------------------------------------------------------- *)
+(* the reported location lies inside the input *)
+
+(* s is the byte offset at which line ln (1-based) of bs starts *)
+Definition line_start_of (bs : list N) (ln s : nat) : Prop :=
+  (s <= length bs)%nat /\ (s = 0%nat \/ nth_error bs (s - 1) = Some Loc.LF) /\ ln = (1 + Loc.count_lf (firstn s bs))%nat.
+
+Lemma firstn_split {A} (l : list A) : forall s m, firstn (s + m) l = firstn s l ++ firstn m (skipn s l).
+Proof.
+  induction l as [|x l IH]; intros s m.
+  - rewrite !firstn_nil, skipn_nil, firstn_nil. reflexivity.
+  - destruct s as [|s]; [reflexivity |]. cbn [Nat.add firstn skipn app]. rewrite IH. reflexivity.
+Qed.
+
+Lemma count_lf_nolf : forall l n, (forall k, (k < n)%nat -> nth_error l k <> Some Loc.LF) -> Loc.count_lf (firstn n l) = 0%nat.
+Proof.
+  induction l as [|b l IH]; intros n H; [rewrite firstn_nil; reflexivity |].
+  destruct n as [|n]; [reflexivity |]. cbn [firstn]. unfold Loc.count_lf. cbn [filter].
+  destruct (Loc.is_lf b) eqn:E.
+  - exfalso. apply (H 0%nat); [lia |]. cbn. f_equal. apply LocP.is_lf_true. exact E.
+  - apply IH. intros k Hk. apply (H (S k)). lia.
+Qed.
+
+Lemma line_of_start bs i s : Loc.is_line_start bs i s ->
+  Loc.count_lf (firstn i bs) = Loc.count_lf (firstn s bs).
+Proof.
+  intros (LE & _ & NL). replace i with (s + (i - s))%nat by lia. rewrite firstn_split, LocP.count_lf_app.
+  rewrite (count_lf_nolf (skipn s bs) (i - s)); [lia |]. intros k Hk. rewrite LocP.nth_error_skipn. apply NL. lia.
+Qed.
+
+Theorem tokenize_err_location_inside max_in max_tok bs c l k :
+  tokenize_with max_in max_tok bs = Err c l k ->
+  1 <= l /\ 1 <= k /\ (N.to_nat l <= 1 + Loc.count_lf bs)%nat /\
+  exists s, line_start_of bs (N.to_nat l) s /\ (N.to_nat k <= 1 + Loc.width (Loc.line_bytes bs s))%nat.
+Proof.
+  intros E. destruct (tokenize_err_offset _ _ _ _ _ _ E) as [(_ & -> & ->)|(i & LE & EQ)].
+  - split; [lia |]. split; [lia |]. split; [cbn; lia |]. exists 0%nat. split.
+    + split; [lia |]. split; [left; reflexivity | reflexivity].
+    + cbn. lia.
+  - rewrite loc_bridge in EQ. unfold nloc in EQ. injection EQ as -> ->. rewrite !Nat2N.id.
+    set (j := N.to_nat i) in *.
+    assert (LJ : (j <= length bs)%nat) by (unfold j; lia).
+    destruct (LocP.line_start_exists bs j) as [s HS].
+    pose proof (LocP.loc_one_based bs j) as [O1 O2].
+    pose proof (LocP.loc_inside bs j s HS) as [I1 I2].
+    split; [lia |]. split; [lia |]. split; [lia |].
+    exists s. split; [| exact I2].
+    destruct HS as (A & Bq & C). split; [lia |]. split; [exact Bq |].
+    rewrite LocP.loc_line. rewrite (line_of_start bs j s (conj A (conj Bq C))). reflexivity.
+Qed.
